@@ -159,3 +159,180 @@ Proof.
   - unfold find_page, cs'. cbn [set_pages cs_pages kfind]. rewrite Ecpi, N.eqb_refl. reflexivity.
   - destruct Hcpok as (_ & Hb & _). rewrite Hb, Hgi. reflexivity.
 Qed.
+
+(* ------------------------------------------------------------------------------------- *)
+(* huge_seg                                                                                *)
+(* ------------------------------------------------------------------------------------- *)
+
+Theorem huge_seg_spec m base bs al m' idx : mem_inv m -> huge_seg m base bs al = Some (m', idx) ->
+  mem_inv m' /\ (forall x, In x (live_blocks m') <-> In x (live_blocks m)) /\
+  exists cs' cp', find_seg m' base = Some cs' /\ find_page cs' idx = Some cp'.
+Proof.
+  intros Hm. unfold huge_seg.
+  destruct (segment_request bs al) as [[[ss info] a'] off] eqn:Er.
+  destruct ((bs =? 0) || negb ((2 <=? ss) && (ss <? 4294967296) && (info =? 1))) eqn:Ec; [discriminate|].
+  apply orb_false_elim in Ec as (Eb0 & Ec). apply negb_false_iff in Ec.
+  apply andb_prop in Ec as (Ec & Einfo). apply andb_prop in Ec as (E2 & E32).
+  apply N.eqb_neq in Eb0. apply N.eqb_eq in Einfo. apply N.leb_le in E2. apply N.ltb_lt in E32. subst info.
+  destruct (segment_init bs al empty_queues) as [st|] eqn:Ei; [|discriminate].
+  destruct (huge_seg_init bs al ss a' off st Er Eb0 E2 E32 Ei) as (Hinv & Hu & Hk & Hinfo & Hn & Hg1).
+  rewrite Hinfo.
+  set (psize := snd (page_area (mkCSeg base st []) 1)).
+  set (st2 := set_block_size st 1 psize).
+  destruct (base_ok m base (seg_slices (fst (cs_st (mkCSeg base st2 []))))) eqn:Eb; [|discriminate].
+  destruct (init_cpage (mkCSeg base st2 []) 1 psize) as [cp|] eqn:Ecp; [|discriminate].
+  intros H; inversion H; subst m' idx. clear H.
+  destruct (base_ok_spec _ _ _ Eb) as (B1 & B2 & B3 & B4 & B5).
+  destruct (init_cpage_some _ _ _ _ Ecp) as (Hps0 & _ & _).
+  assert (HI : span_Inv st) by (exists [(0, 1); (1, ss - 1)], ss; rewrite Hu; exact Hinv).
+  assert (Hused : In (1, ss - 1) (used_spans (fst st))).
+  { apply (In_used_spans _ _ _ _ _ _ Hinv). split; [right; left; reflexivity|]. rewrite Hg1. cbn [bsz].
+    unfold MI_SEGMENT_SLICE_SIZE. lia. }
+  pose proof (set_block_size_facts st 1 (ss - 1) psize HI Hused Hps0) as F. cbv zeta in F. fold st2 in F.
+  destruct F as (Hinv2 & Hus2 & Hgo & Hgi & Hk2 & _ & _ & _).
+  destruct (init_page_ok base st2 [] 1 psize cp Ecp) as (Hcpok & Ecpi & Ecpg).
+  { rewrite Hgi. reflexivity. }
+  set (cs' := set_pages (mkCSeg base st2 []) [cp]).
+  assert (Hs' : seg_ok cs').
+  { unfold seg_ok. cbn [cs' set_pages cs_base cs_st cs_pages map].
+    split; [assumption|]. split; [assumption|]. split; [assumption|]. split; [exact B4|].
+    split; [assumption|]. split; [constructor; [intros []|constructor]|]. split; [|split].
+    - intros i. rewrite Ecpi. cbn [In]. split.
+      + intros [<-|[]]. split; [lia|]. exists (ss - 1). apply Hus2. assumption.
+      + intros (Hi0 & ci & Hi). apply Hus2 in Hi. apply (In_used_spans _ _ _ _ _ _ Hinv) in Hi as (Hi & _).
+        destruct Hi as [E|[E|[]]]; inversion E; subst; [lia|left; reflexivity].
+    - intros cp2 [<-|[]]. rewrite Ecpi. assumption.
+    - intros Hkn. rewrite Hk2, Hk in Hkn. discriminate. }
+  split; [|split].
+  - apply cons_inv; [assumption|assumption|].
+    intros x Hx. destruct (B5 x Hx) as (Hne & Hd). split; [exact Hne|exact Hd].
+  - intros x. unfold live_blocks. cbn [flat_map].
+    assert (E : seg_blocks cs' = []).
+    { unfold seg_blocks, cs'. cbn [set_pages cs_pages flat_map]. unfold page_blocks. rewrite Ecpg. reflexivity. }
+    rewrite E. reflexivity.
+  - exists cs', cp. split.
+    + unfold find_seg. cbn [kfind]. change (cs_base cs') with base. rewrite N.eqb_refl. reflexivity.
+    + unfold find_page, cs'. cbn [set_pages cs_pages kfind]. rewrite Ecpi, N.eqb_refl. reflexivity.
+Qed.
+
+(* ------------------------------------------------------------------------------------- *)
+(* retire_page                                                                             *)
+(* ------------------------------------------------------------------------------------- *)
+
+Lemma flat_map_nil {A B} (f : A -> list B) l : (forall x, In x l -> f x = []) -> flat_map f l = [].
+Proof.
+  induction l as [|x r IH]; cbn [flat_map]; [reflexivity|]. intros H.
+  rewrite (H x (or_introl eq_refl)), IH; [reflexivity|]. intros y Hy. apply H. right. assumption.
+Qed.
+
+Lemma length_used_spans st : span_Inv st -> N.of_nat (length (used_spans (fst st))) = used (fst st) + 1.
+Proof.
+  intros (sps & m & Hinv). rewrite (used_spans_inv _ _ _ _ Hinv).
+  destruct Hinv as (_ & _ & _ & _ & _ & _ & _ & Hu & _). unfold count_used in Hu. symmetry. exact Hu.
+Qed.
+
+(* a segment without pages in use: only the info span is in use *)
+Lemma used_zero_spans st i c : span_Inv st -> used (fst st) = 0 -> In (i, c) (used_spans (fst st)) -> i = 0.
+Proof.
+  intros Hinv Hu Hin. pose proof (length_used_spans st Hinv) as Hl. rewrite Hu in Hl.
+  destruct (info_span_used st Hinv) as (H0 & _).
+  revert Hin H0 Hl. destruct (used_spans (fst st)) as [|x [|y r]]; cbn [length]; intros Hin H0 Hl; try lia.
+  destruct Hin as [E1|[]]. destruct H0 as [E2|[]]. rewrite E1 in E2. inversion E2. reflexivity.
+Qed.
+
+(* a huge segment has one page *)
+Lemma huge_used_le st : span_Inv st -> kind (fst st) = SegHuge -> used (fst st) <= 1.
+Proof.
+  intros Hinv Hk. pose proof (length_used_spans st Hinv) as Hl.
+  destruct Hinv as (sps & m & Hinv). rewrite (used_spans_inv _ _ _ _ Hinv) in Hl.
+  pose proof Hinv as (_ & _ & _ & _ & _ & Hshape & _). unfold huge_shape in Hshape. rewrite Hk in Hshape.
+  destruct Hshape as (c & ->).
+  cbn [filter fst] in Hl.
+  destruct (0 <? bsz (get (entries (fst st)) 0)); destruct (0 <? bsz (get (entries (fst st)) (info_slices (fst st))));
+    cbn [length] in Hl; lia.
+Qed.
+
+(* a page without used blocks has no live block *)
+Lemma unused_page_no_ghost cp : page_Inv (cp_page cp) -> ghost_ok cp -> Page.used (cp_page cp) = 0 -> cp_ghost cp = [].
+Proof.
+  intros Hpi (_ & Hkeys & _) Hu. pose proof (page_live_count _ Hpi) as Hc. rewrite Hu in Hc.
+  destruct (cp_ghost cp) as [|[b r] g]; [reflexivity|]. exfalso.
+  assert (Hl : is_live (cp_page cp) b) by (apply Hkeys; left; reflexivity).
+  apply page_live_spec in Hl. destruct (page_live (cp_page cp)); [destruct Hl|cbn [length] in Hc; lia].
+Qed.
+
+Theorem retire_page_spec m base idx m' : mem_inv m -> retire_page m base idx = Some m' ->
+  mem_inv m' /\ (forall x, In x (live_blocks m') <-> In x (live_blocks m)).
+Proof.
+  intros Hm. unfold retire_page.
+  destruct (find_seg m base) as [cs|] eqn:Ef; [|discriminate].
+  destruct (find_page cs idx) as [cp|] eqn:Ep; [|discriminate].
+  destruct (Page.used (cp_page cp) =? 0) eqn:Eu; [|discriminate]. apply N.eqb_eq in Eu.
+  destruct (find_both _ _ _ _ _ Hm Ef Ep) as (Hcs & Eb & Hcp & Ei & Hs & (Hpi & Hbz & Hres & Hgo)).
+  subst base idx.
+  pose proof (unused_page_no_ghost cp Hpi Hgo Eu) as Eg.
+  pose proof Hs as (A1 & A2 & A3 & A4 & Hinv & Hndp & Hpg & Hpok & Hc256).
+  destruct (page_span _ _ Hs Hcp) as (Hi0 & c & Hsp).
+  destruct (cs_st cs) as [sg qs] eqn:Est. cbn [fst] in *.
+  assert (Hne0 : cp_idx cp <> 0) by lia.
+  pose proof (free_frame sg qs (cp_idx cp) c Hinv Hsp Hne0) as F. cbv zeta in F.
+  destruct F as (Hus & Hu1 & Hu2 & Hinv1).
+  pose proof (free_frame_get sg qs (cp_idx cp) c Hinv Hsp Hne0) as Hfg. cbv zeta in Hfg.
+  set (st1 := fst (page_clear (sg, qs) (cp_idx cp))) in *.
+  destruct (used_spans_disjoint (sg, qs) Hinv) as (Hdis & _). cbn [fst] in Hdis.
+  (* the other pages keep their span and their first entry *)
+  assert (Hkeep : forall cp2, In cp2 (cs_pages cs) -> cp_idx cp2 <> cp_idx cp ->
+            exists c2, In (cp_idx cp2, c2) (used_spans (fst st1)) /\
+                       get (entries (fst st1)) (cp_idx cp2) = get (entries sg) (cp_idx cp2)).
+  { intros cp2 Hcp2 Hne. destruct (page_span _ _ Hs Hcp2) as (_ & c2 & H2). rewrite Est in H2. cbn [fst] in H2.
+    assert (H2' : In (cp_idx cp2, c2) (used_spans (fst st1))) by (apply Hus; split; [congruence|assumption]).
+    exists c2. split; [assumption|]. apply (Hfg _ _ H2'). }
+  destruct (Span.used (fst st1) =? 0) eqn:Eu0.
+  - (* the segment is released *)
+    apply N.eqb_eq in Eu0. intros H; inversion H; subst m'. clear H.
+    split; [apply kdel_inv; assumption|].
+    apply live_blocks_kdel. intros cs2 Hcs2 Eb2.
+    pose proof Hm as (Hnd & _). pose proof (key_inj cs_base m cs2 cs Hnd Hcs2 Hcs Eb2) as ->.
+    assert (Hall : forall cp2, In cp2 (cs_pages cs) -> cp2 = cp).
+    { intros cp2 Hcp2. destruct (N.eq_dec (cp_idx cp2) (cp_idx cp)) as [E|E].
+      - apply (key_inj cp_idx _ cp2 cp Hndp Hcp2 Hcp E).
+      - exfalso. destruct (Hkeep cp2 Hcp2 E) as (c2 & H2 & _).
+        pose proof (used_zero_spans st1 _ _ Hinv1 Eu0 H2) as Hz.
+        destruct (page_span _ _ Hs Hcp2) as (Hp & _). lia. }
+    unfold seg_blocks. apply flat_map_nil. intros cp2 Hcp2. rewrite (Hall cp2 Hcp2).
+    unfold page_blocks. rewrite Eg. reflexivity.
+  - apply N.eqb_neq in Eu0. intros H; inversion H; subst m'. clear H.
+    assert (Ek : kind sg = SegNormal).
+    { destruct (kind sg) eqn:Ek; [reflexivity|]. exfalso.
+      pose proof (huge_used_le (sg, qs) Hinv Ek) as Hle. cbn [fst] in Hle. lia. }
+    assert (Ek1 : kind (fst st1) = SegNormal).
+    { unfold st1. rewrite kind_page_clear. exact Ek. }
+    set (cs' := mkCSeg (cs_base cs) st1 (kdel cp_idx (cs_pages cs) (cp_idx cp))).
+    assert (Esz : seg_size cs' = seg_size cs).
+    { rewrite !seg_size_normal; [reflexivity|rewrite Est; exact Ek|exact Ek1]. }
+    assert (Hs' : seg_ok cs').
+    { unfold seg_ok. rewrite Esz. cbn [cs' cs_base cs_st cs_pages].
+      split; [assumption|]. split; [assumption|]. split; [assumption|]. split; [assumption|].
+      split; [assumption|]. split; [apply NoDup_kdel; assumption|]. split; [|split].
+      - intros i. rewrite In_map_key_kdel, Hpg. split.
+        + intros ((Hi & ci & Hin) & Hne). split; [assumption|]. exists ci. apply Hus. split; [congruence|assumption].
+        + intros (Hi & ci & Hin). apply Hus in Hin as (Hne & Hin). split; [split; [assumption|exists ci; assumption]|].
+          intros ->. destruct (Hdis _ _ _ _ Hin Hsp) as [(_ & ->)|Hd]; [congruence|].
+          pose proof (used_span_pos (sg, qs) _ _ Hinv Hin). pose proof (used_span_pos (sg, qs) _ _ Hinv Hsp). lia.
+      - intros cp2 Hcp2. apply In_kdel in Hcp2 as (Hcp2 & Hne).
+        destruct (Hkeep cp2 Hcp2 Hne) as (c2 & _ & Eg2). rewrite Eg2. apply Hpok. assumption.
+      - intros _ i ci Hin. apply Hus in Hin as (_ & Hin). apply (Hc256 Ek _ _ Hin). }
+    assert (Esb : forall x, In x (seg_blocks cs') <-> In x (seg_blocks cs)).
+    { intros x. rewrite !In_seg_blocks. unfold cs' at 1; cbn [cs_pages]. split.
+      - intros (cp2 & Hcp2 & Hx). apply In_kdel in Hcp2 as (Hcp2 & Hne). exists cp2. split; [assumption|].
+        destruct (Hkeep cp2 Hcp2 Hne) as (c2 & _ & Eg2).
+        rewrite <- (page_blocks_frame cs cs' cp2); [assumption|reflexivity|]. rewrite Est. exact Eg2.
+      - intros (cp2 & Hcp2 & Hx). destruct (N.eq_dec (cp_idx cp2) (cp_idx cp)) as [E|E].
+        + pose proof (key_inj cp_idx _ cp2 cp Hndp Hcp2 Hcp E) as ->. unfold page_blocks in Hx. rewrite Eg in Hx. destruct Hx.
+        + exists cp2. split; [apply In_kdel; split; assumption|].
+          destruct (Hkeep cp2 Hcp2 E) as (c2 & _ & Eg2).
+          rewrite (page_blocks_frame cs cs' cp2); [assumption|reflexivity|]. rewrite Est. exact Eg2. }
+    split.
+    + apply (kset_inv m cs); try assumption. reflexivity.
+    + apply (live_blocks_kset m cs cs' Hm Hcs eq_refl Esb).
+Qed.
